@@ -1005,6 +1005,12 @@ impl<T: ArrayValue> Array<T> {
         }
         match &self.shape[depth..] {
             [] => Ok(self),
+            // There are no rows to take the first of
+            [_, rest @ ..] if self.shape[..depth].contains(&0) => {
+                self.shape = self.shape[..depth].iter().chain(rest).copied().collect();
+                self.validate();
+                Ok(self)
+            }
             [0, rest @ ..] => match env.ctx().scalar_fill() {
                 Ok(fill) => {
                     self.shape = self.shape[..depth].iter().chain(rest).copied().collect();
@@ -1081,6 +1087,13 @@ impl<T: ArrayValue> Array<T> {
         }
         match &self.shape[depth..] {
             [] => Ok(self),
+            // There are no rows to take the last of
+            [_, rest @ ..] if self.shape[..depth].contains(&0) => {
+                self.shape = self.shape[..depth].iter().chain(rest).copied().collect();
+                self.meta.take_sorted_flags();
+                self.validate();
+                Ok(self)
+            }
             [0, rest @ ..] => match env.ctx().scalar_fill() {
                 Ok(fill) => {
                     self.shape = self.shape[..depth].iter().chain(rest).copied().collect();
